@@ -20,6 +20,7 @@ type gthread struct {
 	ready func() bool // nil = runnable
 	vc    []int       // vector clock (race detector): fork/join, channels, once, atomics, pool hand-off
 	locks map[*value]bool // mutexes currently held (lockset)
+	group int             // the "process" (verifSpawn) this goroutine belongs to; 0 = the harness itself
 }
 
 type killSignal struct{}
@@ -32,7 +33,12 @@ type scheduler struct {
 	progress    int // number of synchronisation points passed by any thread
 	decisions   int
 	preemptions int
+	groups      bool // processes were started with verifSpawn: see dispatch
+	atProc      bool // the current scheduling point is a process-level one (file-system operation, sleep, explicit yield)
 }
+
+// nextSpawnIsProcess: the goroutine about to be spawned is a "process" (verifSpawn)
+var nextSpawnIsProcess bool
 
 var (
 	sched            *scheduler
@@ -93,7 +99,30 @@ func (s *scheduler) dispatch(me *gthread) {
 			meRunnable = true
 		}
 	}
-	if ExploreSchedules && len(rs) > 1 && !s.killed && s.abort == nil {
+	atProc := s.atProc
+	s.atProc = false
+	grouped := false
+	if s.groups && !atProc {
+		// Processes share nothing but the file system, so the order of one process's internal
+		// synchronisation (channels, mutexes, goroutine starts) relative to the steps of another
+		// process is unobservable: only file-system operations, sleeps and explicit yields are
+		// scheduling points between processes.  Inside a process one fixed order is followed:
+		// keep running, else the first runnable goroutine of the same process.
+		if meRunnable {
+			grouped = true
+		} else {
+			for _, t := range rs {
+				if t.group == me.group {
+					next, grouped = t, true
+					break
+				}
+			}
+		}
+		if grouped {
+			eng.assumptions["schedules: goroutines inside one process follow one fixed order (their interleaving is not observable by another process); processes interleave at file-system operations, sleeps and explicit yields"] = true
+		}
+	}
+	if !grouped && ExploreSchedules && len(rs) > 1 && !s.killed && s.abort == nil {
 		// preemption-bounded exploration: staying on the current thread is free, switching away
 		// from a runnable thread costs one preemption; when the current thread blocks or ends,
 		// the choice among the others is free (but counted against MaxSchedChoices)
@@ -155,7 +184,13 @@ func spawnGoroutine(fr *frame, instr *ssa.Go, fn value, args []value) {
 	}
 	s := sched
 	parent := s.cur
-	t := &gthread{id: len(s.threads), wake: make(chan struct{}, 1)}
+	t := &gthread{id: len(s.threads), wake: make(chan struct{}, 1), group: parent.group}
+	procSpawn := nextSpawnIsProcess
+	if procSpawn {
+		nextSpawnIsProcess = false
+		t.group = t.id
+		s.groups = true
+	}
 	// happens-before: child starts with the parent's clock
 	t.vc = make([]int, len(s.threads)+1)
 	copy(t.vc, parent.vc)
@@ -219,6 +254,7 @@ func spawnGoroutine(fr *frame, instr *ssa.Go, fn value, args []value) {
 		call(fr.i, nil, pos, fn, args)
 	}()
 	// the spawn itself is a scheduling point
+	s.atProc = procSpawn
 	s.yield(nil)
 }
 
@@ -496,6 +532,7 @@ func (s *scheduler) sleepYield() {
 	}
 	me := s.cur
 	start := s.progress
+	s.atProc = true
 	s.yield(func() bool {
 		if s.progress > start+1 {
 			return true
